@@ -338,7 +338,7 @@ class FullWorld:
 
 def convergence_due(st):
     """DilationL3.tla's antecedent of NoDeadlock, evaluated on the final state of the behaviour: nothing in flight,
-    both dilating and not stopping, resources left, no dial pending, and the network let one current link live"""
+    both dilating and not stopping, resources left, no dial pending, and the network did not cut every current link"""
     sides = ("L", "F")
     links = [l for l in st["links"] if l["phase"] != "none"]
 
@@ -352,8 +352,8 @@ def convergence_due(st):
     resources = st["nlinks"] < len(st["links"]) and all(st["cgen"][x] < 4 for x in sides)
     dialing = any(l["phase"] == "dial" for l in links)
     current = [l for l in links if l["gen"]["L"] == st["cgen"]["L"] and l["gen"]["F"] == st["cgen"]["F"]]
-    live = any(not l["wascut"] for l in current)
-    return quiet and started and resources and not dialing and live
+    cut_all = bool(current) and all(l["wascut"] for l in current)
+    return quiet and started and resources and not dialing and not cut_all
 
 
 def stop_due(st, x):
